@@ -16,7 +16,8 @@ Segments of a case are separated by ` | `, operations of a `row` case by ` ; `. 
 Cases (`<label>` names the concrete Rust type on the harness side and is ignored here):
   `ser <label> <variant> | C | T | V`      → `ok <cell hex>` | `err tc|ser <path>`
   `tc <label> | C | T`                     → `ok` | `err <path>`
-  `deser <label> | C | T`  deserialize of a valid cell of T WITHOUT type_check → `safe` | `panics`
+  `deser <label> <cell variant> | C | T`  deserialize of a valid cell of T WITHOUT type_check → `safe` | `panics`
+  `deserrow <label> | untyped or n C… | m T…`  DeserializeRow::deserialize of a valid row WITHOUT type_check → `safe` | `panics`
   `tcrow <label> | untyped or n C… | m T…` → `ok` | `err <path>`
   `rows <label> | untyped or n C… | m T… | <rows>`  (a parsed RESULT/Rows, then rows_iter::<T>())
        → `ok rows=<n>` | `typecheck-err <path>`
@@ -24,11 +25,15 @@ Cases (`<label>` names the concrete Rust type on the harness side and is ignored
        → one `ok:<count>:<len>` / `err(<class> <path>):<count>:<len>` / `toomany:<count>:<len>` per op, then
          `= cells=<parsed cell count> <buffer hex or digest>`
   `pager <target> <ext> <skip> <stop|all> | <prepared cols> | <page> | …`  the pager's typed stream over pages with their own
-       metadata (cols ::= n (<name> <type>)…, page ::= <rows> nometa | <rows> <newid> cols)
-       → `ctor:TypeCheck` | stop: `rows=<delivered> fin=end|TypeCheck` | all (polls through error items): `seq=r2e3r1 fin=end`
+       metadata (cols ::= n (<name> <type>)…, page ::= <rows> nometa [cut r] | <rows> <newid> cols [cut r]; `cut r`: the page's
+       bytes end inside row r)
+       → `ctor:TypeCheck` | stop: `rows=<delivered> fin=end|TypeCheck` | all (polls through error items): `seq=r2e3x1r1 fin=end`
+         (r rows, e type-check errors, x row-deserialization errors)
   `bindrow seq|tup3|map | name T ; name T … | [name] <ref> V ; …`  SerializeRow through from_serializable
        → `ok count=… cells=… <digest>` | `err WrongColumnCount` | `err ValueMissingForColumn n` | `err NoColumnWithName n`
          | `err col n <class> <path>` | `err TooManyValues`
+  `batch <vec|tuple|iter> | cols || cols … | vals || vals …`  a BATCH bound through RawBatchValuesAdapter (one context per
+       statement) → `ok n [count cells digest]…` | `err CountsMismatch` | `err stmt i <bind error>`  (`.` = no statements / rows)
   `frame <hex>`  new_from_frame → `ok count=… cells=… rest=<unread> <digest>` | `err`
   `bind <path> n…` rows of ~65535 values through from_serializable (slice_i32 / slice_opt / vec_str / map), a
        RowWriter used directly (writer), append_serialize_row (append a b c / mixed n k), add_value (add n)
@@ -402,6 +407,48 @@ def runDeser (case impl : String) : String :=
     | _, _ => "bad-case"
   | _ => "bad-case"
 
+/-- Row level (`deserrow`): walk the columns in order over VALID cells.  A column that passes its check decodes; the
+first column that does not decides: a root-level site panics for sure, anything else (a decode error, or a deeper
+site) is left to the implementation's line; after the common prefix a missing column (`unreachable!`) or an excess
+column (`assert!`) panics. -/
+def rowWalk : List Carrier → List CqlTy → Option Bool   -- some true = panics, some false = safe, none = echo
+  | [], [] => some false
+  | [], _ :: _ => some true
+  | _ :: _, [] => some true
+  | c :: cs, t :: ts =>
+    if deserAccepts c t then rowWalk cs ts
+    else if rootPanics c t then some true
+    else none
+
+def runDeserRow (case impl : String) : String :=
+  match segs case with
+  | [_, cseg, tseg] =>
+    let ts := match words tseg with
+      | m :: r => match m.toNat? with
+        | some m => match parseTys (r.length + 1) m r with
+          | some (ts, []) => some ts
+          | _ => none
+        | none => none
+      | [] => none
+    let cs := match words cseg with
+      | ["untyped"] => some none
+      | n :: r => match n.toNat? with
+        | some n => match parseCars (r.length + 1) n r with
+          | some (cs, []) => some (some cs)
+          | _ => none
+        | none => none
+      | [] => none
+    match cs, ts with
+    | some none, some _ => "safe"
+    | some (some cs), some ts =>
+      if !rowDecodePanics (.cols cs) ts then "safe"
+      else match rowWalk cs ts with
+        | some true => "panics"
+        | some false => "REJECT rowDecodePanics-but-walk-safe"
+        | none => if impl == "panics" || impl == "safe" then impl else "REJECT expected-panics-or-safe"
+    | _, _ => "bad-case"
+  | _ => "bad-case"
+
 /-! ### `bindrow` / `frame`: row-level binding and `new_from_frame` -/
 
 open ScyllaVerif.C17Bind in
@@ -445,6 +492,26 @@ def runBindRow (case : String) : String :=
     | _, _ => "bad-case"
   | _ => "bad-case"
 
+-- `batch <carrier> | <cols of stmt 1> || <cols of stmt 2> … | <values of row 1> || <values of row 2> …`
+open ScyllaVerif.C17Bind in
+def runBatch (case : String) : String :=
+  match segs case with
+  | [_, sseg, rseg] =>
+    let groups (seg : String) : List String :=
+      if seg.trimAscii.toString == "." then [] else (seg.splitOn " || ").map (fun s => s.trimAscii.toString)
+    let stmts := (groups sseg).mapM fun g => (splitSemi g).mapM parseBindCol
+    let rows := (groups rseg).mapM fun g => (splitSemi g).mapM fun s => match words s with
+      | _ref :: rest => valOf (" ".intercalate rest)
+      | _ => none
+    match stmts, rows with
+    | some stmts, some rows =>
+      match bindBatch stmts rows 0 with
+      | .error .countsMismatch => "err CountsMismatch"
+      | .error (.stmt i e) => s!"err stmt {i} {bindErrStr e}"
+      | .ok svs => s!"ok {svs.length}" ++ String.join (svs.map fun sv => s!" [{sv.count} {cellsStr sv.bytes} {digest sv.bytes}]")
+    | _, _ => "bad-case"
+  | _ => "bad-case"
+
 open ScyllaVerif.C17Bind in
 def runFrame (toks : List String) : String :=
   match toks with
@@ -476,23 +543,32 @@ def parseCols (toks : List String) : Option (List (String × CqlTy)) :=
       go n rest
   | [] => none
 
-/-- (rows, own columns or none for NO_METADATA, announces a new metadata id) -/
-def parsePage (seg : String) : Option (Nat × Option (List (String × CqlTy)) × Bool) :=
-  match words seg with
-  | [r, "nometa"] => r.toNat?.map fun r => (r, none, false)
+/-- (rows, own columns or none for NO_METADATA, announces a new metadata id, rows readable before the cut) -/
+def parsePage (seg : String) : Option (Nat × Option (List (String × CqlTy)) × Bool × Nat) :=
+  -- an optional suffix `cut <r>`: the page's bytes are truncated inside row `r` (rows r.. are unreadable)
+  let ws := words seg
+  let (ws, cut) : List String × Option Nat :=
+    match ws.reverse with
+    | r :: "cut" :: rest => (rest.reverse, r.toNat?)
+    | _ => (ws, none)
+  match ws with
+  | [r, "nometa"] => r.toNat?.map fun r => (r, none, false, (cut.getD r))
   | r :: nid :: rest =>
     match r.toNat?, parseCols rest with
-    | some r, some cs => if nid == "1" then some (r, some cs, true) else if nid == "0" then some (r, some cs, false) else none
+    | some r, some cs =>
+      if nid == "1" then some (r, some cs, true, cut.getD r) else if nid == "0" then some (r, some cs, false, cut.getD r) else none
     | _, _ => none
   | _ => none
 
 /-- The columns the rows of page `k` are laid out in (see `effective_cols` in harness/src/c17/pager.rs). -/
 def effectiveCols (prepared : List (String × CqlTy)) (ext : Bool)
-    (pages : List (Nat × Option (List (String × CqlTy)) × Bool)) : List PageM :=
-  let step (acc : List PageM × List (String × CqlTy)) (p : Nat × Option (List (String × CqlTy)) × Bool) :=
+    (pages : List (Nat × Option (List (String × CqlTy)) × Bool × Nat)) : List PageM :=
+  let raws (rows cut : Nat) : List Bool := List.replicate (min cut rows) true ++ List.replicate (rows - cut) false
+  let step (acc : List PageM × List (String × CqlTy)) (p : Nat × Option (List (String × CqlTy)) × Bool × Nat) :=
     match p with
-    | (rows, some cs, newId) => (acc.1 ++ [⟨cs, rows⟩], if ext && newId then cs else acc.2)
-    | (rows, none, _) => (acc.1 ++ [⟨acc.2, rows⟩], acc.2)
+    -- a row without columns has no bytes: such a page cannot be truncated
+    | (rows, some cs, newId, cut) => (acc.1 ++ [⟨cs, raws rows (if cs.isEmpty then rows else cut)⟩], if ext && newId then cs else acc.2)
+    | (rows, none, _, cut) => (acc.1 ++ [⟨acc.2, raws rows (if acc.2.isEmpty then rows else cut)⟩], acc.2)
   (pages.foldl step ([], prepared)).1
 
 /-- `T::type_check` of the target row type against a page's columns.  The derived struct `PkV { pk: i32, v: i64 }`
@@ -526,17 +602,18 @@ def runPager (case : String) : String :=
             let rows := (seen.filter (fun o => match o with | .row _ => true | _ => false)).length
             let fin := match seen.getLast? with
               | some (.typeErr _) => "TypeCheck"
+              | some (.rawErr _) => "err:RowDeserialization"
               | _ => "end"
             s!"rows={rows} fin={fin}"
           else if consumer == "all" then
             -- run-length encoding of the items: r<n> rows, e<n> type-check errors
-            let step (acc : List (Bool × Nat)) (o : StreamOut) : List (Bool × Nat) :=
-              let isRow := match o with | .row _ => true | _ => false
+            let tagOf (o : StreamOut) : String := match o with | .row _ => "r" | .typeErr _ => "e" | .rawErr _ => "x"
+            let step (acc : List (String × Nat)) (o : StreamOut) : List (String × Nat) :=
               match acc with
-              | (b, n) :: r => if b == isRow then (b, n + 1) :: r else (isRow, 1) :: (b, n) :: r
-              | [] => [(isRow, 1)]
+              | (b, n) :: r => if b == tagOf o then (b, n + 1) :: r else (tagOf o, 1) :: (b, n) :: r
+              | [] => [(tagOf o, 1)]
             let runs := (outs.foldl step []).reverse
-            let rle := String.join (runs.map fun (b, n) => (if b then "r" else "e") ++ toString n)
+            let rle := String.join (runs.map fun (b, n) => b ++ toString n)
             s!"seq={if rle.isEmpty then "-" else rle} fin=end"
           else "bad-case"
     | _, _, _ => "bad-case"
@@ -588,7 +665,9 @@ def run (case impl : String) : String :=
     | _ => "bad-case"
   | some "pager" => runPager case
   | some "deser" => runDeser case impl.trimAscii.toString
+  | some "deserrow" => runDeserRow case impl.trimAscii.toString
   | some "bindrow" => runBindRow case
+  | some "batch" => runBatch case
   | some "frame" => runFrame (words case).tail
   | some "rows" =>
     match segs case with
